@@ -276,3 +276,12 @@ func uni(t *rapid.T, n int, label string) int {
 func pct(t *rapid.T, p int, label string) bool { return uni(t, 100, label) < p }
 
 func pick[T any](t *rapid.T, xs []T, label string) T { return xs[uni(t, len(xs), label)] }
+
+
+// minHistory draws a lower bound for the length of a generated history. rapid's
+// slice generator is biased towards short slices (right for shrinking, wrong for
+// histories that need several events on one object); a uniformly drawn lower
+// bound keeps removal-shrinking available (the bound itself shrinks to 1 first).
+func minHistory(t *rapid.T, max int) int {
+	return 1 + uni(t, max*2/3, "minhistory")
+}
